@@ -283,8 +283,13 @@ class Runner:
 
         n_compiles = sum(1 for ops in sc["threads"] for op in ops if op["op"] in ("new", "recompile"))
         est = 4000 * n_compiles + 200
+        # generous upper bound on the yield points this workload needs (about 6 line events per source character and compile):
+        # exceeding four times that is a hang, not a long run
+        need = sum(len(texts[op["t"]]["text"]) * 8 + 4000 for ops in sc["threads"] for op in ops if op["op"] in ("new", "recompile")) \
+            + 3000 * sum(len(ops) for ops in sc["threads"])
         chooser = self.make_chooser(sc, seed, decisions, est, judged)
-        sched = threads.Scheduler([make_body(i, ops) for i, ops in enumerate(sc["threads"])], chooser, self.fc)
+        sched = threads.Scheduler([make_body(i, ops) for i, ops in enumerate(sc["threads"])], chooser, self.fc,
+                                  step_cap=max(2_000_000, 4 * need))
         sched.run()
         info = {"steps": sched.step, "switches": sched.switches, "hot_points": sched.hot_points,
                 "digest": "%016x" % (sched.digest & 0xFFFFFFFFFFFFFFFF), "switch_digest": "%016x" % (sched.switch_digest & 0xFFFFFFFFFFFFFFFF),
@@ -627,10 +632,15 @@ def worker(argv):
     interleavings = set()
     digests = []
     samples = []
-    try:
+    if True:
         for idx in driver.worker_indices(a):
             sc = scenario_for(a["seed"], idx)
-            res = runner.run(sc, a["seed"])
+            try:
+                res = runner.run(sc, a["seed"])
+            except HarnessError as e:
+                # the run was isolated in a child: report it (the batch will exit 2) and go on
+                out.emit({"type": "harness", "error": str(e), "index": idx})
+                continue
             if res["result"] == "skip":
                 agg["skipped"] += 1
                 digests.append([idx, "skip"])
@@ -665,11 +675,6 @@ def worker(argv):
                                 "steps": info["steps"], "switches": info["switches"],
                                 "first_decisions": res["decisions"][:12],
                                 "history": [{k: v for k, v in r.items() if k != "probes"} for r in res["hist"]]})
-    except HarnessError as e:
-        out.emit({"type": "harness", "error": str(e), "index": idx})
-        out.emit({"type": "summary", "agg": agg, "per_policy": per_policy, "per_threads": per_threads,
-                  "interleavings": sorted(interleavings), "digests": digests, "samples": samples})
-        os._exit(0)
     out.emit({"type": "summary", "agg": agg, "per_policy": per_policy, "per_threads": per_threads,
               "interleavings": sorted(interleavings), "digests": digests, "samples": samples})
     return 0
